@@ -358,12 +358,16 @@ def lived_in(make, vals, seed):
         if n >= 3 or (n == 2 and rng.random() < 0.5):
             j, k = rng.sample(range(n), 2)
             start[j] = start[k]          # another MULTISET of values too: a remembered sum / min / count is then wrong
+        if rng.random() < 0.4 and any(x is None for x in start) and any(x is not None for x in start):
+            stand = next(x for x in start if x is not None)
+            start = [stand if x is None else x for x in start]     # no None at first: every None ARRIVES by a write
         v = make(start)
         for probe in (lambda: v.sum(), lambda: v.mean(), lambda: v.min(), lambda: v.max(), lambda: v.stdev(),
                       lambda: v.any(), lambda: v.all(), lambda: v.fingerprint(), lambda: v == v, lambda: v.isna(),
                       lambda: v.dropna(), lambda: v.sort_by(), lambda: v[0:], lambda: -v, lambda: repr(v),
                       lambda: v.real, lambda: v.year, lambda: v.upper(), lambda: v + v, lambda: v.copy(),
-                      lambda: _as_key(v, n)):
+                      lambda: _as_key(v, n), lambda: v + 1, lambda: v * 2, lambda: v == 1, lambda: v.fillna(0),
+                      lambda: 1 + v):
             try:
                 probe()
             except Exception:                                # noqa: BLE001
